@@ -77,11 +77,16 @@ def run_property(prop, tier, seed, replay=None):
             continue
         if rec.get("timeout"):
             timeouts += 1
+            # violations the monitor had already observed before the watchdog fired are real observations
+            for v in rec.get("partial_viol", []):
+                violations.append((v.get("key", "%s/unclassified" % prop), v.get("msg", "") + " [case then hit the watchdog]", case, v.get("detail")))
             continue
         if rec.get("crash"):
             key = mon.classify_crash(case, rec) if hasattr(mon, "classify_crash") else "%s/crash" % prop
             violations.append((key, "child process died (rc=%s) while running an in-domain case" % rec.get("rc"), case,
                                {"stderr": rec.get("stderr", "")[-1500:]}))
+            for v in rec.get("partial_viol", []):
+                violations.append((v.get("key", "%s/unclassified" % prop), v.get("msg", "") + " [child then died]", case, v.get("detail")))
             continue
         if "error" in rec:
             errors.append(rec["error"])
